@@ -217,7 +217,7 @@ class Check:
         if unconfirmed:
             code = 2
             for v in unconfirmed[:5]:
-                self.inconclusive.append(f'counterexample for {v["obligation"]} did not reproduce natively: {json.dumps(v["witness"])[:300]}')
+                self.inconclusive.append(f'counterexample for {v["obligation"]} did not reproduce natively: {json.dumps(v["witness"], default=str)[:700]}')
         if confirmed:
             code = 1
             seen = set()
@@ -318,3 +318,13 @@ def conc(m, v, st=None):
     if isinstance(v, Map):
         return [[conc(m, k, st), conc(m, x, st)] for k, x in zip(v.keys or [], v.vals or [])]
     return str(v)
+
+
+def shape_of(st):
+    return {n[1]: n[2] for n in st.notes if n[0] == 'shape'}
+
+
+def same_shape(a, b):
+    """two paths started from the same lazily shaped pre-state chose the same container sizes"""
+    sa, sb = shape_of(a), shape_of(b)
+    return all(sb.get(k, v) == v for k, v in sa.items())
